@@ -249,6 +249,7 @@ class Ledger:
         (a renamed local or parameter must not orphan a reviewed entry); only entries no current site matches exactly"""
         names = set()
         copies = {}
+        temps = {}
         for o in site.operands:
             for x in expr_walk(o):
                 if x[0] == "field" and isinstance(x[2], str) and not x[2].isdigit():
@@ -260,6 +261,9 @@ class Ledger:
                         sd = site.fn.single_def(x[1])
                         if sd and sd[0] == "stmt" and sd[3]["r"]["k"] == "use" and sd[3]["r"]["a"].get("k") in ("copy", "move"):
                             copies[x[2]] = expr_str(site.fn.rvalue_expr(sd[3]["r"], 8, stop={"named"}), 60)
+                        elif sd and sd[0] == "stmt" and sd[3]["r"]["k"] in ("bin", "cast"):
+                            # `let image_end = orig + image.len();` - a named temporary for an arithmetic expression stands for that expression
+                            temps[x[2]] = expr_str(site.fn.rvalue_expr(sd[3]["r"], 8, stop={"named"}), 80)
         if not names:
             return None
         live = {s.key for s in self.sites}
@@ -270,17 +274,40 @@ class Ledger:
             if unfolded != site.desc and k in self.db and k not in live:
                 return self.db[k]
         tok = re.compile(r"[A-Za-z_][A-Za-z_0-9]*|\S")
-        mine = tok.findall(site.desc)
+        desc = site.desc.replace("copy_from_slice on", "clone_from_slice on")      # the same length requirement
+        comp = {k_: v_ for k_, v_ in copies.items() if not re.fullmatch(r"[A-Za-z_][A-Za-z_0-9]*", v_)}      # copies of computed temporaries (`x = move _t.0`)
+        both = dict(temps)
+        both.update(comp)
         hits = []
-        for k, e in self.db.items():
-            if not k.startswith(prefix) or k in live:
-                continue
-            theirs = tok.findall(k[len(prefix):].split("#")[0])
-            if len(theirs) != len(mine):
-                continue
-            if all(a == b or (a in names and re.match(r"[A-Za-z_]", b)) for a, b in zip(mine, theirs)):
-                hits.append(e)
-        return hits[0] if len(hits) == 1 else None
+        for unf in ({}, comp, temps, both):
+            d_ = desc
+            nm_ = set(names)
+            if unf:
+                d_ = re.sub(r"[A-Za-z_][A-Za-z_0-9]*", lambda m_: unf.get(m_.group(0), m_.group(0)), desc)
+                nm_ |= {m_ for v_ in unf.values() for m_ in re.findall(r"[A-Za-z_][A-Za-z_0-9]*", v_)}
+            mine = tok.findall(d_)
+            hits = []
+            for k, e in self.db.items():
+                if not k.startswith(prefix) or k in live:
+                    continue
+                theirs = tok.findall(k[len(prefix):].split("#")[0])
+                if len(theirs) != len(mine):
+                    continue
+                if all(a == b or (a in nm_ and re.match(r"[A-Za-z_]", b)) for a, b in zip(mine, theirs)):
+                    hits.append(e)
+            if len(hits) == 1:
+                return hits[0]
+        # the reviewed entry named its operand only by a local's name (`index on &str with range`): it never spoke about how that value is
+        # computed, so it still applies when the function's one site of this kind now spells the value out (`.. with as_range(&stmt.span)`)
+        if not hits:
+            orphans = [(k, e) for k, e in self.db.items() if k.startswith(prefix) and k not in live]
+            mine_here = [s_ for s_ in self.sites if s_.fn is site.fn and s_.kind == site.kind and s_.key not in self.db]
+            if len(orphans) == 1 and len(mine_here) == 1:
+                tail = orphans[0][0][len(prefix):].split("#")[0]
+                opaque = re.sub(r"^(index|index_mut|get|get_mut) on \S+ with ", "", tail)
+                if re.fullmatch(r"[A-Za-z_][A-Za-z_0-9]*", opaque):
+                    return orphans[0][1]
+        return None
 
     # ---- ledger tactics that are re-verified on every run
     def verify_entry(self, site, e):
@@ -608,6 +635,17 @@ class Ledger:
             if d == bb:
                 continue
             t = fn.term(d)
+            if t["k"] == "call" and re.search(r"ops::index::Index(Mut)?<.*::index(_mut)?$", callee_of(t) or "") and len(t.get("args", [])) == 2 \
+                    and re.search(r"^&(mut )?(str|alloc::string::String|\[|alloc::vec::Vec)", (t.get("arg_tys") or [""])[0]):
+                # a slice `x[a..]` / `x[a..b]` / `x[..b]` that was taken successfully: its bounds are at most len(x) <= isize::MAX
+                rng = fn.expr(t["args"][1], 6, stop={"named"})
+                while rng[0] in ("ref", "deref"):
+                    rng = rng[1]
+                if rng[0] == "agg" and rng[1][0] == "adt" and "ops::range::Range" in str(rng[1][1]):
+                    for bound in rng[2]:
+                        if bound[0] != "const" and self._stable_between(fn, d, bb, bound):
+                            out.append((("bin", "Le", bound, ("const", 2**63 - 1)), 1))
+                continue
             if t["k"] != "switch":
                 continue
             succ = fn.succ_map()[d]
@@ -763,6 +801,8 @@ class Ledger:
             elif a is not None and b is not None:
                 if op == "Add":
                     r = (a[0] + b[0], a[1] + b[1])
+                elif op == "Sub" and _part_len(fn, e[2], e[3]):
+                    r = (0, a[1])          # len(whole) - len(part of it): never negative
                 elif op == "Sub":
                     r = (a[0] - b[1], a[1] - b[0])
                 elif op == "Mul":
@@ -857,6 +897,8 @@ class Ledger:
             tr = TY_RANGE.get(ty)
             if tr is None:
                 return None
+            if op == "Sub" and len(site.operands) == 2 and _part_len(fn, site.operands[0], site.operands[1]):
+                return "interval: the length of a string minus the length of a trimmed / stripped part of the same string is never negative"
             if op in ("Add", "Sub", "Mul") and len(site.operands) == 2:
                 a = self.ival(fn, site.operands[0], cons)
                 b = self.ival(fn, site.operands[1], cons)
@@ -1142,6 +1184,41 @@ def _canon(e):
 
 def _same(a, b):
     return _canon(a) == _canon(b)
+
+
+_PART = re.compile(r"core::str::<impl str>::(trim|trim_start|trim_end|trim_start_matches|trim_end_matches|trim_matches|strip_prefix|strip_suffix)$")
+
+
+def _part_len(fn, a, b):
+    """a = len(X) and b = len(Y) with Y a trimmed / stripped part of X (so len(Y) <= len(X))"""
+    def len_arg(x):
+        while x[0] in ("ref", "deref", "cast"):
+            x = x[3] if x[0] == "cast" else x[1]
+        if x[0] == "call" and str(x[1]).endswith("::len") and len(x[2]) == 1:
+            return kit.strip_refs(x[2][0])
+        return None
+    X, Y = len_arg(a), len_arg(b)
+    if X is None or Y is None:
+        return False
+    for _ in range(3):
+        if Y[0] == "local":
+            full = fn.local_expr(Y[1], 6, stop={"named"})
+            if full == Y:
+                sd = fn.single_def(Y[1])
+                if sd and sd[0] == "call":
+                    full = ("call", callee_of(sd[3]), tuple(fn.expr(a_, 4, stop={"named"}) for a_ in sd[3]["args"]))
+            Y = kit.strip_refs(full)
+        if Y[0] == "downcast" or (Y[0] == "field" and Y[1][0] == "downcast"):
+            Y = kit.strip_refs(Y[1] if Y[0] == "downcast" else Y[1][1])      # payload of strip_prefix's Some
+            continue
+        if Y[0] == "call" and _PART.search(str(Y[1])) and Y[2]:
+            src = kit.strip_refs(Y[2][0])
+            if expr_str(src, 200) == expr_str(X, 200):
+                return True
+            Y = src
+            continue
+        break
+    return False
 
 
 def _constraint_interval(c, v, e):
